@@ -359,6 +359,12 @@ static int cb_func(cfg_t *cfg, cfg_opt_t *opt, int argc, const char **argv)
 		free(saved);
 		free(text);
 	}
+	/* "free2": the callback frees another (root) context while the parse that called it is still running */
+	if (argc > 0 && !strcmp(argv[0], "free2") && ctx[2] && ctx[2] != cfg) {
+		cfg_free(ctx[2]);
+		ctx[2] = NULL;
+		fputs("T nest freed\n", obs);
+	}
 	if (fail)
 		cfg_error(cfg, "callback failed");
 	return fail;
@@ -629,14 +635,20 @@ static void cross_check(cfg_t *cfg, cfg_opt_t *opt)
 					getter_hazard(opt, "title", i);
 				if (s->title && (opt->flags & CFGF_TITLE)) {
 					/* the by-title getter returns the first instance carrying that title */
+					int untitled_before = 0;	/* the by-title lookup gives up at an instance without a title */
+
 					for (j = 0; j < i; j++) {
 						cfg_t *e = cfg_opt_getnsec(opt, j);
 
+						if (e && !e->title)
+							untitled_before = 1;
 						if (e && e->title && ((opt->flags & CFGF_NOCASE) ? strcasecmp(e->title, s->title) : strcmp(e->title, s->title)) == 0) {
 							first = e;
 							break;
 						}
 					}
+					if (untitled_before)
+						first = NULL;
 					if (cfg_opt_gettsec(opt, s->title) != first || cfg_gettsec(cfg, nm, s->title) != first)
 						getter_hazard(opt, "gettsec", i);
 				}
